@@ -679,6 +679,19 @@ class CallMixin:
                 tmp = State()
                 tmp.env['$mod'] = mod
                 tmp.oid = st.oid
+                if isinstance(v[1], (ast.List, ast.Dict, ast.Set)) or (
+                        isinstance(v[1], ast.Call) and isinstance(v[1].func, ast.Name) and v[1].func.id in ('list', 'dict', 'set')):
+                    # a mutable default is evaluated ONCE, at definition time: every call that omits the argument
+                    # gets the same object, with whatever earlier calls left in it -> arbitrary content
+                    from .contracts import ExtT, ListOfT, MapT, SetT
+                    kind = 'list' if isinstance(v[1], ast.List) or (isinstance(v[1], ast.Call) and v[1].func.id == 'list') else (
+                        'dict' if isinstance(v[1], ast.Dict) or (isinstance(v[1], ast.Call) and v[1].func.id == 'dict') else 'set')
+                    t = {'list': ListOfT(ExtT('shared_default_item'), name=f'{k}_shared_default'), 'dict': MapT('Str', ExtT('shared_default_item')),
+                         'set': SetT('U')}[kind]
+                    env[k] = self.make_symbolic(t, f'{k}_shared_mutable_default', st)
+                    self.dropped.append(f'mutable default argument {k!r}: modelled as one shared object with arbitrary content') \
+                        if hasattr(self, 'dropped') and isinstance(self.dropped, list) else None
+                    continue
                 res = self.eval(v[1], tmp)
                 if len(res) != 1 or res[0].kind != 'ok':
                     raise EngineError('default argument expression')
